@@ -38,6 +38,49 @@ func successReturns(f *Func) []*ast.ReturnStmt {
 }
 
 func rulesC15(c *Ctx) {
+	c.Rule("R-C15-8", "the resource a protected-resource metadata document must name is derived from the URL the client asked for, never from where the challenge says the document lives: in protectedResourceMetadataURLs every candidate's expected resource is the requested resource URL or its origin", func() {
+		f := c.Fn("auth", "", "protectedResourceMetadataURLs")
+		ps := f.NonRecvParams()
+		c.Need(len(ps) == 2, "protectedResourceMetadataURLs(metadataURL, resourceURL)")
+		resP := types.Object(ps[1])
+		// the parsed form of the requested URL
+		var parsed types.Object
+		for _, w := range Writes(f.Body, false) {
+			if as, ok := w.Stmt.(*ast.AssignStmt); ok && len(as.Rhs) == 1 && len(as.Lhs) == 2 {
+				if ce, ok := ast.Unparen(as.Rhs[0]).(*ast.CallExpr); ok && f.Callee(ce) != nil && f.Callee(ce).FullName() == "net/url.Parse" && len(ce.Args) == 1 && f.ObjOf(ce.Args[0]) == resP {
+					parsed = f.ObjOf(as.Lhs[0])
+				}
+			}
+		}
+		n := 0
+		ast.Inspect(f.Body, func(x ast.Node) bool {
+			cl, ok := x.(*ast.CompositeLit)
+			if !ok || namedOf(f.TypeOf(cl)) == nil || namedOf(f.TypeOf(cl)).Obj().Name() != "prmURL" {
+				return true
+			}
+			for _, el := range cl.Elts {
+				kv, ok := el.(*ast.KeyValueExpr)
+				if !ok {
+					continue
+				}
+				if k, ok := kv.Key.(*ast.Ident); !ok || k.Name != "Resource" {
+					continue
+				}
+				n++
+				v := ast.Unparen(kv.Value)
+				okV := f.ObjOf(v) == resP
+				if ce, isC := v.(*ast.CallExpr); isC && len(ce.Args) == 0 {
+					if sel, isS := ast.Unparen(ce.Fun).(*ast.SelectorExpr); isS && sel.Sel.Name == "String" && parsed != nil && f.ObjOf(sel.X) == parsed {
+						okV = true
+					}
+				}
+				c.Check(okV, "prm-candidate:expected-resource#"+itoa(n), f, kv, "the expected resource is the requested URL (or the String of its parsed form), got %s", exprStr(kv.Value))
+			}
+			return true
+		})
+		c.Pin("prmURL candidates with an expected resource", n, 3)
+	})
+
 	c.Rule("R-C15-7", "what counts as loopback is exactly the name localhost and the loopback addresses: util.IsLoopback answers true only under host == \"localhost\" (equality, not a suffix or substring) or by netip.Addr.IsLoopback of the parsed host; every other return is false", func() {
 		f := c.Fn("internal/util", "", "IsLoopback")
 		g := f.Graph()
